@@ -148,7 +148,8 @@ Lemma fill_ok st k off data st' :
 Proof.
   intros HI. unfold fill. destruct (region_at st k) as [r|] eqn:Er; [|discriminate].
   destruct (N.leb_spec (off + len data) (rlen r)) as [Hle|]; [|discriminate].
-  intros H. inversion H; subst st'; clear H.
+  intros H. assert (Hst : st' = with_mem st (write (store st) (rid r, roff r + off) data) (cur st) (pend st)) by congruence.
+  subst st'; clear H.
   pose proof (region_at_in _ _ _ Er) as Hin.
   pose proof HI as [Hc Hcap Hown Hrch].
   pose proof (rchain_bound _ _ _ Hrch Hin) as Hb.
@@ -163,12 +164,12 @@ Proof.
     { eapply owns_sub; [apply Hr; lia | lia | lia]. }
     destruct (owns_bound _ _ _ _ _ _ _ _ Hc Ho) as (Hid & Hbd).
     split; [|split; [|split; [|split]]].
-    + constructor; simp_st.
-      * rewrite Ec. now apply chain_fill.
-      * unfold cur_cap. simp_st. rewrite Ec. rewrite len_block_write by assumption.
-        unfold cur_cap in Hcap. rewrite Ec in Hcap. exact Hcap.
+    + constructor; simp_st; try rewrite Ec.
+      * now apply chain_fill.
+      * unfold cur_cap in *. simp_st. rewrite Ec in *. rewrite len_block_write by assumption.
+        exact Hcap.
       * apply Forall_forall. intros r' Hr'. eapply region_owned_same; [| |exact (Hown r' Hr')]; simp_st; congruence.
-      * unfold cur_len. simp_st. rewrite Ec. unfold cur_len in Hrch. rewrite Ec in Hrch. exact Hrch.
+      * unfold cur_len in *. simp_st. rewrite Ec in *. exact Hrch.
     + unfold Lof. simp_st. rewrite Ec. rewrite stitched_fill by assumption. now rewrite N.sub_0_r.
     + simp_st. congruence.
     + reflexivity.
